@@ -162,6 +162,7 @@ def ltsAct (s : String) : Option Martian.LockLTS.Act :=
   | 'K' :: r => (String.ofList r).toNat?.map .kill
   | 'E' :: r => (String.ofList r).toNat?.map .acquireErr
   | 'T' :: r => (String.ofList r).toNat?.map .start
+  | 'F' :: r => (String.ofList r).toNat?.map .startFail
   | _ => none
 
 def ltsTrace (rf : Bool) : Martian.LockLTS.St → List Martian.LockLTS.Act → List String → Option (List String)
